@@ -136,9 +136,7 @@ theorem stepAny_closed (cfg : Cfg) {rec : Pred V → R V} (hrec : ClosedRec φ r
     · rw [ret_some h2]; cl_simp C
   · rw [ret_some h2]; exact C.ff_
   · rw [ret_some h2]; cl_simp C
-  · obtain ⟨o2, t3, t4, h3, h4⟩ := bindR_some h2
-    have g2 := hrec _ _ _ h3 ((C.not_ _).1 g)
-    rw [ret_some h4]; cl_simp C
+  · rw [ret_some h2]; cl_simp C
   · rw [ret_some h2]; cl_simp C
 
 theorem notPost_closed (o : Pred V) (h : φ o) : φ (notPost o) := by
